@@ -68,9 +68,10 @@ func (t stmpl) wire() [][]byte {
 // "</script" and "<!--" belong to the HTML level (counted by the specification, never generated here)
 //
 // Two junctions of line terminators with a hole are kept out as well (both stated where they belong):
-//   - backslash CR, a hole, then LF: with an EMPTY value the author's CR and LF meet as one CR LF and the line
+//   - CR, a hole, then LF: with an EMPTY value the author's CR and LF meet as one CR LF - after a backslash the line
 //     continuation swallows the LF (the clause cr_lf_kept of spec/JsScript.v ok_junction; props/C03.v
-//     C03_ex_hole_after_backslash_cr) - a template whose CR LF line ending has an expression between the CR and the LF;
+//     C03_ex_hole_after_backslash_cr), raw in a template literal the two line breaks cook to one.  No escaper can act
+//     on an empty value; a template whose CR LF line ending has an expression between the CR and the LF is not produced;
 //   - a hole followed by white space that is not ASCII (U+2028/9 here) and then "</": the parser takes the white space
 //     with the expression and ends the contents at the "</" whatever the quote state; model/JsTrack.v skips ASCII white
 //     space only (a stated limit of the model; "</" right after a hole is outside the tracker fragment anyway)
@@ -82,7 +83,7 @@ func (t stmpl) expressible() bool {
 		if i < len(t.idx) && (strings.HasSuffix(s, "{") || oddBackslashes(s)) {
 			return false
 		}
-		if i < len(t.idx) && strings.HasSuffix(s, "\r") && oddBackslashes(strings.TrimSuffix(s, "\r")) {
+		if i < len(t.idx) && strings.HasSuffix(s, "\r") {
 			for j := i + 1; j < len(t.segs); j++ {
 				if t.segs[j] != "" {
 					if t.segs[j][0] == '\n' {
@@ -441,12 +442,15 @@ func sweepLines() []stmpl {
 			add([]string{"var a = " + Q + "x" + T, "y" + Q + end, ""}, Q+"b", raw+"hole after it")
 			add([]string{"var a = " + Q, T + "y" + Q + end, ""}, Q+"b", raw+"hole before it")
 			add([]string{"var a = " + Q + "x" + T + "y" + Q + end, ""}, "b", raw+"then a hole in script text")
-			// the literal is left open at the end of its line
-			add([]string{"var a = " + Q + "x" + T + "var b = ", ";" + T + "var c = " + Q, Q + ";"}, "b"+Q, "literal not closed on its line, holes on the next lines")
-			add([]string{"var a = " + Q + "x;" + T + "// it" + Q + "s" + T + "var b = ", ";"}, "b", "literal not closed on its line, the same quote in a comment on the next line")
 			// terminators in script text around literals
 			add([]string{"var a = ", T + "var b = " + Q, Q + T + "var c = ", ""}, "b"+Q+"b", lt.name+" between statements, holes in script text and in a literal")
 			add([]string{"f(" + Q + "x" + Q + "," + T + Q, Q + "," + T, ")"}, Q+"b", lt.name+" between two literals")
+			if q == '`' {
+				continue // a template literal goes on over line ends: nothing is left open
+			}
+			// the literal is left open at the end of its line
+			add([]string{"var a = " + Q + "x" + T + "var b = ", ";" + T + "var c = " + Q, Q + ";"}, "b"+Q, "literal not closed on its line, holes on the next lines")
+			add([]string{"var a = " + Q + "x;" + T + "// it" + Q + "s" + T + "var b = ", ";"}, "b", "literal not closed on its line, the same quote in a comment on the next line")
 		}
 	}
 	return out
